@@ -273,6 +273,12 @@ func (f *FuncVC) loopHead(fr *frame, li *loopInfo, entry *State) *State {
 			}
 		}
 	}
+	epochChanged := false
+	for _, l := range li.latch {
+		if o := fr.out[l]; o != nil && o.epoch != entry.epoch {
+			epochChanged = true
+		}
+	}
 	delete(fr.discovery, li.header)
 	f.rollback(fr, sn)
 	for b := range li.body {
@@ -325,6 +331,11 @@ func (f *FuncVC) loopHead(fr *frame, li *loopInfo, entry *State) *State {
 				keep[k] = c
 			}
 		}
+	}
+	if epochChanged {
+		// the body contains a total havoc: everything is unknown at the head
+		f.havocAll(st)
+		hkeys = nil
 	}
 	for _, k := range hkeys {
 		if c := keep[k]; c != nil {
@@ -1643,7 +1654,7 @@ func (f *FuncVC) execMakeSlice(fr *frame, st *State, x *ssa.MakeSlice) {
 		key := "E." + sortKey(k, w)
 		arr := f.heapGet(st, key, elemArraySort(k, w))
 		z := f.zero(et)
-		f.assume("(= (select " + arr + " " + r + ") ((as const (Array Int " + sortOf(k, w) + ")) " + z.T + "))")
+		f.assume(f.allEqual("(select "+arr+" "+r+")", k, w, z.T))
 	} else if k == KStruct {
 		f.zeroStructElems(st, r, et)
 	}
